@@ -3,6 +3,7 @@ Model: coq/Model/Respond.v (classification) + Model/Route.v (handle_assembled_qu
 Ties: (1) the real QueryHandler.handle_assembled_query (stub transport/queues) against the model; (2) wire-level oracle on the full stack."""
 import json
 
+from lib.fakemsg import FakeIncoming
 from lib import cachesim, common
 from lib.cachesim import rec, coq_rec
 from lib.common import cz, ctext, cbool, clist
@@ -69,20 +70,13 @@ def observe(case):
     class Msg:
         pass
     for t, recs in case['cache']:
-        m = Msg()
-        m.now = t
-        objs = [cachesim.mk(dict(r, created=t)) for r in recs]
-        m.answers = lambda objs=objs: objs
+        m = FakeIncoming(answers=[cachesim.mk(dict(r, created=t)) for r in recs], now=t, flags=0x8400)
         rm.async_updates_from_response(m)
     msgs = []
     for md in case['msgs']:
-        m = Msg()
-        m._questions = [cachesim.mk(q) for q in md['questions']]
-        m.now = md['now']
-        m.id = case['id']
-        ans = [cachesim.mk(dict(r, created=md['now'])) for r in md['answers']]
-        m.answers = lambda ans=ans: ans
-        m.is_probe = lambda p=md['is_probe']: p
+        m = FakeIncoming(questions=[cachesim.mk(q) for q in md['questions']],
+                         answers=[cachesim.mk(dict(r, created=md['now'])) for r in md['answers']],
+                         now=md['now'], is_probe=md['is_probe'], ident=case['id'])
         msgs.append(m)
     QueryHandler(zc).handle_assembled_query(msgs, case['addr'], case['port'], 'TRANSPORT', ())
     return actions
@@ -136,12 +130,13 @@ def gen_scenario(rng):
     """one query after the host's own announcements were last seen `age` ms ago"""
     qkind = rng.choice(['ptr', 'srv', 'txt', 'a', 'ptr+srv'])
     qu = rng.random() < 0.6
+    mixed = qkind == 'ptr+srv' and rng.random() < 0.5      # first question QM, second QU
     port = rng.choice([5353, 5353, 5354, 40000])
     probe = rng.random() < 0.3
     # records were multicast (and looped back) at announcement time; query arrives `age` later:
     # around 1 s, around one quarter of the host TTL (120 s -> 30 s) and of the other TTL (4500 s -> 1125 s)
     age = rng.choice([300, 999, 1000, 1001, 5000, 29999, 30000, 30001, 60000, 1124999, 1125000, 1125001, 2000000])
-    return dict(qkind=qkind, qu=qu, port=port, probe=probe, age=age, ident=rng.choice([0, 7, 65535]), two_sockets=rng.random() < 0.3)
+    return dict(qkind=qkind, qu=qu, mixed=mixed, port=port, probe=probe, age=age, ident=rng.choice([0, 7, 65535]), two_sockets=rng.random() < 0.3)
 
 
 def run_scenario(sc):
@@ -161,7 +156,10 @@ def run_scenario(sc):
             names = {'ptr': [(T, 12)], 'srv': [('x.' + T, 33)], 'txt': [('x.' + T, 16)], 'a': [('h.local.', 1)],
                      'ptr+srv': [(T, 12), ('x.' + T, 33)]}[sc['qkind']]
             auth = [rec('KPointer', T, 12, 1, alias='other.' + T, ttl=4500)] if sc['probe'] else []
-            data = q_bytes([(n, t, sc['qu']) for n, t in names], ident=sc['ident'], auth=auth)
+            flags = [sc['qu']] * len(names)
+            if sc.get('mixed'):
+                flags = [False, True]
+            data = q_bytes([(n, t, f) for (n, t), f in zip(names, flags)], ident=sc['ident'], auth=auth)
             out['t'] = sim.now
             out['query'] = data
             # when did the host last see each of its own records multicast (its cache is the only memory it has of that)
@@ -221,30 +219,34 @@ def oracle_scenario(sc, out):
                 return "legacy unicast reply does not echo the questions"
             if any(r.unique for r in u[3]):
                 return "legacy unicast reply carries a cache-flush bit"
+    qu_of = {t: sc['qu'] for t in want}
+    if sc.get('mixed'):
+        qu_of = {12: False, 33: True}
     for t in want:
         recent = is_recent(t)
         in_uc = any(r.type == t for u in uc for r in u[3][:u[2].num_answers])
         mc_now = any(dt == 0 and any(r.type == t for r in recs[:m.num_answers]) for dt, m, recs in mc)
         mc_any = any(any(r.type == t for r in recs) for dt, m, recs in mc)
+        mc_ans = any(any(r.type == t for r in recs[:m.num_answers]) for dt, m, recs in mc)   # as an answer, not as an additional
         if legacy:
             if not in_uc:
                 return f"query from port {sc['port']}: no unicast reply carrying type {t}"
             if not mc_any:
                 return f"query from port {sc['port']}: type {t} not multicast as well"
             continue
-        if sc['qu']:
+        if qu_of[t]:
             if sc['probe']:
                 if not in_uc:
                     return f"QU probe: no unicast reply carrying type {t}"
                 if mc_now != (not recent):
                     return f"QU probe: multicast-now is {mc_now} although the record was {'recently' if recent else 'not recently'} multicast"
             else:
-                if recent and (not in_uc or mc_any):
+                if recent and (not in_uc or mc_ans):
                     return f"QU question, type {t} multicast {age} ms ago (within a quarter of its TTL): expected unicast only (unicast={in_uc}, multicast={mc_any})"
                 if not recent and (in_uc or not mc_now):
                     return f"QU question, type {t} last multicast {age} ms ago (beyond a quarter of its TTL): expected multicast at once and no unicast (unicast={in_uc}, multicast-now={mc_now})"
         else:
-            if in_uc:
+            if in_uc and not sc.get('mixed'):
                 return "QM question from port 5353 answered by unicast"
             if sc['probe'] and not mc_now:
                 return f"QM probe: type {t} not multicast at once"
